@@ -62,6 +62,10 @@ def check(run, prog, tier):
     run.rule("C19-N", "a cell that was never added is skipped alone: the 'not there' handler of a view helper stands for one cell, "
                       "not for the loop over the cells", minimum=6)
     rule_N(run, prog, m)
+    run.rule("C19-O", "what is added to a response, and what a spectrum object is given, is stored whole: between the parameter and "
+                      "the store no real/imaginary part, modulus, rounding or cast to a real type (a part that is 'small' on one scale "
+                      "of the data is the signal on another)", minimum=4)
+    rule_O(run, prog)
     run.extra["exhaustive"] = True
 
 
@@ -408,6 +412,33 @@ def rule_I2(run, prog, m):
                                "shape of the axes is broadcast into the stored one by the sum (the setter sees only the sum, which "
                                "fits) - the same array is refused when it is the first addition to the cell"
                                % (f.short, norm(st.value), par), loc=f.loc(st), sample={"store": norm(st)})
+
+
+def rule_O(run, prog):
+    """'... the total spectrum read back equals the sum of everything added ... for all data arrays': complex arrays of any
+    magnitude.  Every method of the spectrum classes that takes `data` and stores into the object's arrays is traced
+    (qv/faithful.py)."""
+    from .. import faithful
+    rid = "C19-O"
+    n = 0
+    for q in ("quantarhei.spectroscopy.twod.TwoDSpectrum", "quantarhei.spectroscopy.twod2.TwoDSpectrumBase",
+              "quantarhei.spectroscopy.twod2.TwoDResponse"):
+        cls = prog.cls(q)
+        for nme, f in cls.methods.items():
+            if not isinstance(f.node, ast.FunctionDef) or "data" not in [a.arg for a in f.node.args.args]:
+                continue
+            t = faithful.trace(f.node, "data", ("data", "_data", "d__data", "_d__data"))
+            if not t.stores:
+                continue
+            n += 1
+            prog.consulted.add(f.relpath)
+            bad = t.findings[0] if t.findings else None
+            run.obligation(rid, f.short, bad is None, key="whole",
+                           message="%s stores `%s`, which keeps a part of the array it was given (`%s`): the spectrum read back is "
+                                   "not what was added" % (f.short, norm(bad[0])[:60] if bad else "", norm(bad[1])[:50] if bad else ""),
+                           loc=f.loc(bad[0] if bad else f.node), sample={"stores": t.stores})
+    if n < 4:
+        raise AnalysisError("C19-O: only %d storing methods with a `data` parameter found in the spectrum classes" % n)
 
 
 def rule_N(run, prog, m):
